@@ -327,7 +327,22 @@ func init() {
 	}
 	intrinsics[rtPkg+"GuardedBy"] = func(in *Interp, _ *frame, _ *ssa.Function, a []Value) Value {
 		p := a[0].(Iface).V.(*Value)
-		mu := a[1].(Iface).V.(*Value)
+		mi := a[1].(Iface)
+		mu := mi.V.(*Value)
+		// a pointer to a struct that embeds its lock: the lock is the embedded sync.Mutex / sync.RWMutex field
+		if pt, ok := mi.T.Underlying().(*types.Pointer); ok {
+			if st, ok := pt.Elem().Underlying().(*types.Struct); ok {
+				if sv, ok := (*mu).(Struct); ok {
+					for i := 0; i < st.NumFields(); i++ {
+						ts := st.Field(i).Type().String()
+						if ts == "sync.Mutex" || ts == "sync.RWMutex" {
+							mu = &sv[i]
+							break
+						}
+					}
+				}
+			}
+		}
 		in.watch[p] = &watchInfo{label: in.argStr(a[2]), mu: mu}
 		return nil
 	}
